@@ -26,7 +26,7 @@
 From Coq Require Import List ZArith QArith Bool Arith Lia Reals Lra.
 From Flocq Require Import Core BinarySingleNaN.
 From LMBase Require Import Res ListX IEEE.
-From LMDisc Require Import DiscModel DiscImplCheck DiscProofs DiscKernels DiscIEEE DiscImplProofs DiscF32Mono DiscF32Main.
+From LMDisc Require Import DiscModel DiscImplCheck DiscProofs DiscKernels DiscIEEE DiscImplProofs DiscF32Mono DiscF32Main DiscF32Sum DiscF32Cond.
 Import ListNotations.
 
 (* (1) exact arithmetic: byte score of a window >= byte image of its real score *)
@@ -213,7 +213,33 @@ Theorem C08_threshold_transfer_f32_refuted_negzero :
     (sr <= b)%Z /\ (b < st)%Z.
 Proof. exact transfer_f32_refuted_negzero. Qed.
 
-(* (5) binary32, main clause, PARTIAL.  Full statement (not proved): for every matrix with finite
+(* (5) binary32, main clause under the conditioning predicate, PARTIAL.
+   Full statement (not proved in this generality): for every matrix with finite non-wildcard cells
+   such that [well_conditioned m factor = true], every window: scale f32_ops d real <= b.
+   Proved: exactly that, for EVERY window (wildcard cells finite, -inf, +inf or NaN), when in addition
+     - the factor is finite and positive  (missing: factor = 0, i.e. constant matrices or a range that
+       underflows, which the predicate also admits; factor NaN / +inf are excluded by the predicate
+       or give all-zero images),
+     - the motif has at most 16384 rows   (so that C + 1/2 is a binary32 number),
+     - cond_A m <= 2^126                  (so that real - offset cannot overflow).
+   Proof: every partial sum of the score and of the offset is bounded by the corresponding partial
+   sum of cond_A (monotone rounding), so each of the 2M+1 roundings and M cell subtractions errs by at
+   most ulp(cond_A)/2 resp. ulp(cond_A): real (-) offset <= sum_i (x_i (-) o_i) + (2M+1) ulp(cond_A)
+   <= ... + factor/4 by the predicate; then C08_f32_main_partial below.  All hypotheses are executable. *)
+Theorem C08_f32_main_well_conditioned_partial :
+  forall (K : nat) (m : list (list F32.t)) (d : @dmat F32.t) (w : list nat) (real : F32.t) (b : Z),
+    Forall (fun row => Forall (fun x => F32.is_finite x = true) (nonwild K row)) m ->
+    to_discrete f32_ops K m = Ok d ->
+    real_wscore f32_ops m w = Ok real ->
+    disc_wscore (d_data d) w = Ok b ->
+    well_conditioned m (d_factor d) = true ->
+    F32.is_finite (d_factor d) = true -> F32.lt F32.zero (d_factor d) = true ->
+    (Z.of_nat (length m) <= 16384)%Z ->
+    F32.le (cond_A m) (F32.of_Z_exp 1 126) = true ->
+    (scale f32_ops d real <= b)%Z.
+Proof. exact f32_main_well_conditioned_exec. Qed.
+
+(* (5') binary32, main clause, PARTIAL, the analytic core of (5).  Full statement (not proved): for every matrix with finite
    non-wildcard cells that satisfies [well_conditioned], every window: scale f32_ops d real <= b.
    Proved: the clause under the predicate [sum_error_small] on the two sums -- the computed
    real (-) offset is NaN or -inf, or it is finite, the computed per-cell differences x_i (-) o_i
@@ -306,4 +332,34 @@ Proof.
   split; [vm_compute; reflexivity|]. split; [repeat constructor|].
   cbn [rsumd map fold_right fst snd]. set (D := @B2R 24 128 (F32.sub ex_one F32.zero)).
   lra.
+Qed.
+
+(* the hypotheses of C08_f32_main_well_conditioned_partial are satisfiable: a 3-row matrix with a
+   -inf wildcard column; window A,C,A (consensus, cells 128+255+... saturate) and window A,N,A *)
+Definition ex_m32 : list (list F32.t) :=
+  map (map F32.of_bits)
+    [[1069547520; 3212836864; 0; 1048576000; 4286578688];
+     [3221225472; 1077936128; 1040187392; 0; 4286578688];
+     [1065353216; 1056964608; 3231711232; 0; 4286578688]]%Z.
+
+Example ex_f32_hypotheses :
+  forallb (fun row => forallb F32.is_finite (nonwild 5%nat row)) ex_m32 = true /\
+  match to_discrete f32_ops 5%nat ex_m32 with
+  | Ok d =>
+      well_conditioned ex_m32 (d_factor d) = true /\
+      F32.is_finite (d_factor d) = true /\ F32.lt F32.zero (d_factor d) = true /\
+      F32.le (cond_A ex_m32) (F32.of_Z_exp 1 126) = true /\
+      match real_wscore f32_ops ex_m32 [0; 1; 0]%nat, disc_wscore (d_data d) [0; 1; 0]%nat with
+      | Ok real, Ok b => b = 255%Z /\ scale f32_ops d real = 255%Z
+      | _, _ => False
+      end /\
+      match real_wscore f32_ops ex_m32 [0; 4; 0]%nat, disc_wscore (d_data d) [0; 4; 0]%nat with
+      | Ok real, Ok b => (0 <= b)%Z /\ scale f32_ops d real = 0%Z
+      | _, _ => False
+      end
+  | _ => False
+  end.
+Proof.
+  split; [vm_compute; reflexivity|]. vm_compute.
+  repeat split; try reflexivity; discriminate.
 Qed.
